@@ -22,6 +22,7 @@
 import Proofs.Lemmas.ModeCts
 import Proofs.Lemmas.ModeCounter
 import Proofs.Lemmas.ModeSeq
+import Proofs.Lemmas.ModeObjL
 import Proofs.Lemmas.ModeCtsSpec
 import Proofs.Lemmas.ModeCtsInv
 import Proofs.Lemmas.ModeToy
@@ -583,6 +584,118 @@ example :
     o.counter.nonce.length + o.counter.count0.length = (Toy.rot 4 [1, 2, 3, 4]).len ∧ o.count = some ⟨2, 16⟩ ∧
     o.counter.nonce = (⟨4, [7, 7], [255, 255]⟩ : DefaultCounter).nonce := by
   refine ⟨by decide +kernel, ?_, ?_, by decide +kernel, by decide +kernel, by decide +kernel⟩ <;> unfold Bytes <;> decide +kernel
+
+/-! ### one ECB / CBC / CTS object used again and again
+
+  `Model.Mode.Seq.Obj` is what an `ECB` / `CBC` / `CTS_ECB` / `CTS_CBC` object keeps between calls: the state of its padding
+  object `self.pad` (every `enc` resets it and leaves the pad count of ITS message behind; `dec` hands it to `pad.remove`).
+  `Seq.Obj.step` is one public call, `Seq.Obj.run` a history of them; `Cfg` = (class, IV, padding scheme).  The correspondence
+  stream (`modeseq` lines) drives the real object and this machine through the same histories, Nullpadding included. -/
+
+/-- the result of `dec` does not depend on the padding state of the decrypting object — for every padding scheme except
+    Nullpadding (whose `remove` strips the pad count of the latest `enc`: known finding C10-nullpad-remove) -/
+theorem modeseq_dec_ignores_pad_state (cfg : Cfg) (c : BlockCipher) (hs : cfg.scheme ≠ .null) (C : List Nat) (st st' : PadState) :
+    cfg.dec c C st = cfg.dec c C st' := by
+  unfold Cfg.dec
+  cases cfg.kind with
+  | ctsEcb => rfl
+  | ctsCbc => rfl
+  | ecb =>
+    simp only [ECB.dec]
+    cases hp : mkPad c cfg.scheme with
+    | error e => rfl
+    | ok p =>
+      simp only
+      split
+      · rfl
+      · cases mapE c.dec (readBlocks c.len (C.length / c.len) C) with
+        | error e => rfl
+        | ok M => exact remove_state_free p (by rw [mkPad_scheme hp]; exact hs) st st' _
+  | cbc =>
+    simp only [CBC.dec]
+    cases hp : mkPad c cfg.scheme with
+    | error e => rfl
+    | ok p =>
+      simp only
+      split
+      · rfl
+      · split
+        · rfl
+        · cases cbcUnchain c c.len C.length C [] with
+          | error e => rfl
+          | ok M => exact remove_state_free p (by rw [mkPad_scheme hp]; exact hs) st st' _
+
+/-- HISTORY INDEPENDENCE: from ANY starting state of the object, through ANY history of `enc` / `dec` calls, every call returns
+    what it returns as the only call on a new object (`Step.alone`): `enc(M)` a function of the configuration and M, `dec(C)` a
+    function of the configuration and C — in particular not of the messages encrypted before, their lengths, or the order of
+    the calls.  (Every padding scheme except Nullpadding.) -/
+theorem modeseq_history_independent (cfg : Cfg) (c : BlockCipher) (hs : cfg.scheme ≠ .null) :
+    ∀ (steps : List Seq.Step) (o : Seq.Obj), (Seq.Obj.run cfg c o steps).1 = steps.map (Seq.Step.alone cfg c)
+  | [], _ => rfl
+  | s :: ss, o => by
+    simp only [Seq.Obj.run, List.map_cons, modeseq_history_independent cfg c hs ss]
+    cases s with
+    | enc M => rfl
+    | dec C => simp only [Seq.Obj.step, Seq.Step.alone, modeseq_dec_ignores_pad_state cfg c hs C o.pad {}]
+
+/-- the step-sequence corollary of `ecb_dec_enc`: ONE object `ECB(cipher,pad=s)` in any state, any calls `before`, then
+    `enc(M)` — which returns the SP 800-38A ciphertext C of the padded M —, any calls `between` (encryptions of messages of other
+    lengths, decryptions, refused calls), then `dec(C)`: the object gives M back.  s: no padding / PKCS#7 / X9.23 / bit padding -/
+theorem modeseq_ecb_dec_earlier (h : Implements c k) (s : Spec.ModePad.Scheme) (M : List Nat) (hM : Bytes M) (hd : PadDom s c.len M)
+    (o : Seq.Obj) (before between : List Seq.Step) :
+    (Seq.Obj.run ⟨.ecb, [], toModel s⟩ c o (before ++ [.enc M])).1.getLast? = some (.ok (Spec.Mode.ecb k s M)) ∧
+    (Seq.Obj.run ⟨.ecb, [], toModel s⟩ c o (before ++ .enc M :: between ++ [.dec (Spec.Mode.ecb k s M)])).1.getLast? = some (.ok M) := by
+  refine ⟨by rw [seq_run_last_enc]; exact congrArg some (ecb_spec h s M hM hd), ?_⟩
+  rw [seq_run_then_dec]
+  exact congrArg some (ecb_dec_of h s M (padFacts s c.len h.len_pos M hd hM) _)
+
+/-- the same for ONE object `CBC(cipher,iv,pad=s)` -/
+theorem modeseq_cbc_dec_earlier (h : Implements c k) (iv : List Nat) (hiv : IsBlock c.len iv) (s : Spec.ModePad.Scheme) (M : List Nat)
+    (hM : Bytes M) (hd : PadDom s c.len M) (o : Seq.Obj) (before between : List Seq.Step) :
+    (Seq.Obj.run ⟨.cbc, iv, toModel s⟩ c o (before ++ [.enc M])).1.getLast? = some (.ok (Spec.Mode.cbc k iv s M)) ∧
+    (Seq.Obj.run ⟨.cbc, iv, toModel s⟩ c o (before ++ .enc M :: between ++ [.dec (Spec.Mode.cbc k iv s M)])).1.getLast? = some (.ok M) := by
+  refine ⟨by rw [seq_run_last_enc]; exact congrArg some (cbc_spec h iv hiv s M hM hd), ?_⟩
+  rw [seq_run_then_dec]
+  exact congrArg some (cbc_dec_of h iv hiv s M (padFacts s c.len h.len_pos M hd hM) _)
+
+/-- … and for the stealing modes: after any history, `dec` of what an earlier `enc(M)` returned gives M back -/
+theorem modeseq_cts_dec_earlier (h : Implements c k) (iv : List Nat) (hiv : IsBlock c.len iv) (M : List Nat) (hM : Bytes M)
+    (hlen : c.len ≤ M.length) (o : Seq.Obj) (before between : List Seq.Step) :
+    (∃ C, CTS_ECB.enc c .no M = .ok C ∧
+      (Seq.Obj.run ⟨.ctsEcb, [], .no⟩ c o (before ++ .enc M :: between ++ [.dec C])).1.getLast? = some (.ok M)) ∧
+    (∃ C, CTS_CBC.enc c iv .no M = .ok C ∧
+      (Seq.Obj.run ⟨.ctsCbc, iv, .no⟩ c o (before ++ .enc M :: between ++ [.dec C])).1.getLast? = some (.ok M)) := by
+  constructor
+  · have e := cts_ecb_dec_enc h M hM hlen
+    cases he : CTS_ECB.enc c .no M with
+    | error x => rw [he] at e; cases e
+    | ok C =>
+      rw [he] at e
+      exact ⟨C, rfl, by rw [seq_run_then_dec]; exact congrArg some e⟩
+  · have e := cts_cbc_dec_enc h iv hiv M hM hlen
+    cases he : CTS_CBC.enc c iv .no M with
+    | error x => rw [he] at e; cases e
+    | ok C =>
+      rw [he] at e
+      exact ⟨C, rfl, by rw [seq_run_then_dec]; exact congrArg some e⟩
+
+/-- computed: ONE object `ECB(rot,pad=bitpadding)` encrypts AB (48 pad bits), then ABCDE (24 pad bits), then decrypts the FIRST
+    ciphertext and the second: both messages come back; the history leaves the pad count 24 of the latest message behind -/
+example :
+    (Seq.Obj.run ⟨.ecb, [], .bit⟩ (Toy.rot 4 [1, 2, 3, 4]) {}
+      [.enc [65, 66], .enc [65, 66, 67, 68, 69], .dec [64, 131, 4, 64], .dec [64, 64, 64, 64, 130, 3, 4, 68]]).1.map okBytes
+      = [some [64, 131, 4, 64], some [64, 64, 64, 64, 130, 3, 4, 68], some [65, 66], some [65, 66, 67, 68, 69]] ∧
+    (Seq.Obj.run ⟨.ecb, [], .bit⟩ (Toy.rot 4 [1, 2, 3, 4]) {} [.enc [65, 66], .enc [65, 66, 67, 68, 69]]).2.pad.padcnt = 24 := by
+  decide +kernel
+
+/-- the hypothesis `scheme ≠ Nullpadding` of `modeseq_dec_ignores_pad_state` / `modeseq_history_independent` cannot be dropped:
+    the same history with Nullpadding returns AB 00 for the first ciphertext (24 zero bits stripped instead of 16) while a new
+    object returns AB 00 00 00 -/
+example :
+    (Seq.Obj.run ⟨.ecb, [], .null⟩ (Toy.rot 4 [1, 2, 3, 4]) {} [.enc [65, 66], .enc [65, 66, 67, 68, 69], .dec [64, 3, 4, 64]]).1.map okBytes
+      = [some [64, 3, 4, 64], some [64, 64, 64, 64, 2, 3, 4, 68], some [65]] ∧
+    okBytes (Seq.Step.alone ⟨.ecb, [], .null⟩ (Toy.rot 4 [1, 2, 3, 4]) (.dec [64, 3, 4, 64])) = some [65, 66, 0, 0] := by
+  decide +kernel
 
 /-- a concrete permutation cipher on 8-byte blocks satisfying `Implements` (for every block length n ≥ 1 and n-byte key:
     `Proofs.Lemmas.ModeL.toy_rot_implements`) -/
